@@ -423,6 +423,7 @@ def run(repo, rep, tier):
     _attr_own_condition(repo, rep)
     _position_by_index(repo, rep)
     real_text_rule(repo, rep)
+    nested_objects_encoded_completely(repo, rep)
     # the datetime writer str(CIMDateTime) is part of every VALUE written for
     # a datetime: same exact-arithmetic rule as C06.R8
     from .c06 import _r8_exact_fields
@@ -866,6 +867,96 @@ def _position_by_index(repo, rep):
     r14.ob(loops >= 1, 'loops-scanned', {'loops': loops})
     if loops < 1:
         raise AnalysisError('C01.R14: only %d loops scanned' % loops)
+
+
+def nested_objects_encoded_completely(repo, rep):
+    """C01.R16: an object nested in another one (a reference value in a
+    keybinding or property, the path of an instance, a property, a
+    qualifier, ...) is encoded completely.  The `ignore_host` /
+    `ignore_namespace` / `ignore_path` parameters of tocimxml() ask for a
+    reduced encoding of the object they are called on; handing them on to
+    the tocimxml() of a nested object drops path components that belong to
+    the *value* (the namespace and host of a reference keybinding), and the
+    re-parsed object differs from the one sent.  A nested call may pass
+    `ignore_x=True` only where the component is known to be None on that
+    path (`self.path.namespace is None`), where it changes nothing."""
+    from ..cfg import stmt_facts, GuardWalker
+    r16 = rep.rule('C01.R16', 'nested objects are encoded with all their '
+                   'components (no ignore_* flag reaches a nested object)')
+    mod = repo.module(OBJ)
+    flagged = {}
+    for c in mod.classes.values():
+        m = c.methods.get('tocimxml')
+        if m is None:
+            continue
+        flags = [p_ for p_ in m.params if p_.startswith('ignore_')]
+        if flags:
+            flagged[c.name] = [p_ for p_ in m.params if p_ != 'self']
+    all_flags = sorted({p_ for ps in flagged.values() for p_ in ps
+                        if p_.startswith('ignore_')})
+    if len(all_flags) < 2:
+        raise AnalysisError('C01.R16: the ignore_* parameters of tocimxml() '
+                            'were not found')
+    n = 0
+    for f in mod.all_funcs():
+        if f.name not in ('tocimxml',) or f.cls is None:
+            continue
+        fx = None
+        for c in walk_no_nested(f.node):
+            if not (isinstance(c, ast.Call) and
+                    isinstance(c.func, ast.Attribute) and
+                    c.func.attr == 'tocimxml'):
+                continue
+            recv = norm(c.func.value)
+            if recv in ('self',) or recv.startswith('super('):
+                continue
+            n += 1
+            r16.sites += 1
+            r16.functions.add(f.fq)
+            given = []
+            for i, a in enumerate(c.args):
+                # positional: the position in the path classes' signature
+                names = {ps[i] for ps in flagged.values() if i < len(ps)}
+                given.append((sorted(names)[0] if len(names) == 1
+                              else 'ignore_?', a))
+            given += [(k.arg or 'ignore_?', k.value) for k in c.keywords]
+            bad = []
+            for pn, a in given:
+                if not pn.startswith('ignore_'):
+                    continue
+                if isinstance(a, ast.Constant) and a.value is False:
+                    continue
+                if isinstance(a, ast.Constant) and a.value is True and \
+                        pn != 'ignore_?':
+                    comp = pn[len('ignore_'):]
+                    if fx is None:
+                        fx = stmt_facts(f.node)
+                    want = '%s.%s is None' % (recv, comp)
+                    ok = False
+                    for st, (fs, _t) in fx.items():
+                        if isinstance(st, (ast.If, ast.For, ast.While,
+                                           ast.Try, ast.With)):
+                            continue
+                        if any(x is c for x in ast.walk(st)):
+                            atoms = [a_ for t0, p0 in fs
+                                     for a_ in GuardWalker._atoms(t0, p0)]
+                            ok = any(norm(t) == want and pol
+                                     for t, pol in atoms)
+                    if ok:
+                        continue
+                bad.append('%s=%s' % (pn, norm(a, 30)))
+            r16.ob(not bad, '%s|%s' % (f.qualname, norm(c, 60)))
+            if bad:
+                rep.finding(r16, f.qualname, norm(c, 70), 'nested-reduced',
+                            OBJ, c.lineno,
+                            'the nested object %s is encoded with %s: its '
+                            'own host / namespace / path is dropped from '
+                            'the XML although it is part of the value, so '
+                            'the object parsed back differs from the one '
+                            'encoded' % (recv, ', '.join(bad)))
+    if n < 10:
+        raise AnalysisError('C01.R16: only %d nested tocimxml() calls found'
+                            % n)
 
 
 def real_text_rule(repo, rep):
